@@ -141,7 +141,7 @@ var checks = map[string]check{
 	"C10": {
 		ID: "C10", Pkg: "c10", NeedBin: true, MaxPar: 8,
 		Jobs: []job{
-			{Run: "^TestFast$", Quick: 3, QShards: 8, Thor: 30, TShards: 14},
+			{Run: "^TestFast$", Quick: 4, QShards: 8, Thor: 30, TShards: 14},
 		},
 		Rule:   "one rapid case = one generated program under -g fastgo (+0-2 presentation options) built into a driver, then 10-20 (struct, value) pairs, each through the modes write (FastAppend/FastWrite/BLength vs reference decoder and standard Read), read (FastRead vs standard Read on standard and reference encodings, both field orders), unknown / retag / omit_required perturbations, and a sweep over every truncation point (<=512) and single-byte corruptions of type bytes (field, stop, element, map key/value); non-trivial = sweep case, or a value with >=1 optional-with-default field and >=1 container inside a container",
 		Assume: []string{"FastWrite/FastAppend bytes are compared with the reference by decoded value (byte identity only without multi-entry maps)", "the violation is fast != standard (status, offset, object) or a panic; cases where the standard codec itself fails are counted and left to C02", "inputs announcing more than 2^20 elements are skipped on the read path so the watchdog cannot make runs flaky"},
